@@ -27,6 +27,8 @@ func init() {
 		mutation{"register-conditionally", "spec/chord/errors.go", "	errorStrMap[str] = err\n	return err", "	if !retryable {\n		errorStrMap[str] = err\n	}\n	return err", "registry"},
 	)
 	addSelfTests("C15",
+		mutation{"options-reordered", "spec/chord/retry.go", "		retry.Context(ctx),\n		retry.Attempts(n.retryAttempts),\n		retry.Delay(n.retryInterval),", "		retry.Attempts(n.retryAttempts),\n		retry.Delay(n.retryInterval),\n		retry.Context(ctx),", "!retry-options"},
+		mutation{"get-with-named-closure", "spec/chord/retry.go", "	return retry.DoWithData(func() ([]byte, error) {\n		return n.VNode.Get(ctx, key)\n	}, n.retryOptions(ctx)...)", "	attempt := func() ([]byte, error) {\n		return n.VNode.Get(ctx, key)\n	}\n	return retry.DoWithData(attempt, n.retryOptions(ctx)...)", "!retry-sibling"},
 		mutation{"retry-everything", "spec/chord/retry.go", "		retry.RetryIf(ErrorIsRetryable),\n", "", "retry-options"},
 		mutation{"wrong-delegate", "spec/chord/retry.go", "		return n.VNode.PrefixRemove(ctx, prefix, child)", "		return n.VNode.PrefixAppend(ctx, prefix, child)", "retry-sibling"},
 		mutation{"swapped-args", "spec/chord/retry.go", "		return n.VNode.PrefixContains(ctx, prefix, child)", "		return n.VNode.PrefixContains(ctx, child, prefix)", "retry-sibling"},
@@ -529,16 +531,27 @@ func runC15(c *Ctx) {
 }
 
 func retrySibling(fn *Fn, m string) (bool, string) {
-	if len(fn.Body.List) != 1 {
-		return false, "body is not a single return"
+	// the one retry.Do / DoWithData call of the method
+	rcalls := fn.CallsTo(false, "github.com/avast/retry-go/v4.Do", "github.com/avast/retry-go/v4.DoWithData")
+	if len(rcalls) != 1 {
+		return false, fmt.Sprintf("%d retry.Do/DoWithData calls", len(rcalls))
 	}
-	ret, ok := fn.Body.List[0].(*ast.ReturnStmt)
-	if !ok || len(ret.Results) != 1 {
-		return false, "body is not a single return"
-	}
-	call, ok := ret.Results[0].(*ast.CallExpr)
-	if !ok || !fn.IsCall(call, "github.com/avast/retry-go/v4.Do", "github.com/avast/retry-go/v4.DoWithData") {
-		return false, "does not return retry.Do/DoWithData"
+	call := rcalls[0]
+	// every return hands back that call's results (directly or through the variables
+	// they were bound to)
+	for _, ret := range fn.Returns() {
+		if len(ret.Results) == 1 && ast.Unparen(ret.Results[0]) == ast.Expr(call) {
+			continue
+		}
+		for _, res := range ret.Results {
+			pv := fn.Prov(res)
+			if !strings.Contains(pv, "retry-go/v4.Do()") && !strings.Contains(pv, "retry-go/v4.DoWithData()") {
+				return false, "a return does not yield the result of retry.Do/DoWithData: " + pv
+			}
+		}
+		if len(ret.Results) == 0 {
+			return false, "bare return"
+		}
 	}
 	if len(call.Args) != 2 || !call.Ellipsis.IsValid() {
 		return false, "options are not retryOptions(ctx)..."
@@ -547,25 +560,47 @@ func retrySibling(fn *Fn, m string) (bool, string) {
 	if !ok || !fn.IsCall(oc, "spec/chord.retryableWrapper.retryOptions") || len(oc.Args) != 1 || fn.Prov(oc.Args[0]) != "param#0" || fn.Prov(oc.Fun.(*ast.SelectorExpr).X) != "recv" {
 		return false, "options are not n.retryOptions(ctx)"
 	}
-	lit, ok := call.Args[0].(*ast.FuncLit)
-	if !ok || len(lit.Body.List) != 1 {
-		return false, "retried function is not a single-statement literal"
+	// the retried function: a literal, or a local holding one literal
+	lit, _ := ast.Unparen(call.Args[0]).(*ast.FuncLit)
+	if lit == nil {
+		if v := fn.varOf(call.Args[0]); v != nil {
+			defs := fn.defsOf(v)
+			if len(defs) == 1 && defs[0].rhs != nil {
+				lit, _ = ast.Unparen(defs[0].rhs).(*ast.FuncLit)
+			}
+		}
+	}
+	if lit == nil {
+		return false, "retried function is not a function literal"
 	}
 	g := fn.Closure(lit)
-	r, ok := lit.Body.List[0].(*ast.ReturnStmt)
-	if !ok || len(r.Results) != 1 {
-		return false, "closure is not a single return"
+	var inner []*ast.CallExpr
+	for _, ic := range g.Calls(false, func(ic *ast.CallExpr) bool {
+		se, ok := ic.Fun.(*ast.SelectorExpr)
+		return ok && g.Prov(se.X) == "recv.VNode"
+	}) {
+		inner = append(inner, ic)
 	}
-	ic, ok := r.Results[0].(*ast.CallExpr)
-	if !ok {
-		return false, "closure does not return a call"
+	if len(inner) != 1 {
+		return false, fmt.Sprintf("the closure makes %d calls on the wrapped VNode", len(inner))
 	}
-	se, ok := ic.Fun.(*ast.SelectorExpr)
-	if !ok || se.Sel.Name != m {
+	ic := inner[0]
+	se := ic.Fun.(*ast.SelectorExpr)
+	if se.Sel.Name != m {
 		return false, "closure calls a different method: " + types.ExprString(ic.Fun)
 	}
-	if g.Prov(se.X) != "recv.VNode" {
-		return false, "closure does not call the wrapped VNode: " + g.Prov(se.X)
+	for _, r := range g.Returns() {
+		if len(r.Results) == 1 && ast.Unparen(r.Results[0]) == ast.Expr(ic) {
+			continue
+		}
+		if len(r.Results) == 0 {
+			return false, "closure has a bare return"
+		}
+		for _, res := range r.Results {
+			if !strings.Contains(g.Prov(res), "."+m+"()") {
+				return false, "closure returns something else than the call's results: " + g.Prov(res)
+			}
+		}
 	}
 	np := 0
 	for _, fld := range fn.Type.Params.List {
